@@ -16,7 +16,12 @@ RULE = (
     "copy (deepcopy, copy, dm.copy(), comparator rebuilt from its ranks); an identically constructed object; x with exactly ONE "
     "member changed (dm: criteria, alternatives, objectives, weights, matrix, dtypes; result: method, alternatives, values, "
     "extra_ [array cell, int, str, key set, nested dict, array length, value type]; comparator: one ranking, a name, the number of "
-    "rankings), numeric members changed by 0.37x (within) or 2.7x (beyond) a design tolerance drawn from the grid; different "
+    "rankings), decision matrices differing ONLY in the width of one criterion's dtype (int64 / int32 / int16 / int8, uint*, "
+    "float64 / float32, built by mkdm(dtypes=) or dm.copy(dtypes=)) and results / comparators identical except for the concrete "
+    "type of ONE value of extra holding the same value (float / np.float64 / float subclass, int / bool / np.bool_ / int subclass, "
+    "str / np.str_ / str subclass, dict / OrderedDict / defaultdict / dict subclass, ndarray / ndarray subclass; either side the "
+    "subclass) - these two families are asked from BOTH sides (==, !=, equals, aequals, diff, assert_* of (x, y) and of (y, x)); "
+    "numeric members changed by 0.37x (within) or 2.7x (beyond) a design tolerance drawn from the grid; different "
     "shapes / lengths including 1 (broadcasting) and 0; unrelated types (dm / rank / kernel / comparator / int / None / str / list / "
     "float / dict / ndarray); unrelated random pairs of the same kind; pairs with NaN. Every pair is compared at its design tolerance "
     "and at tolerances drawn from rtol, atol in {0,1e-9,1e-5,1e-2,1} x equal_nan x check_dtypes (thorough: all 100), plus the default "
@@ -36,7 +41,9 @@ ASSUMPTIONS = [
 ]
 PARTIAL = (
     "the tie to Python is differential; IEEE rounding inside np.allclose is not modelled (near-boundary comparisons are skipped and "
-    "counted); inf values, string arrays and arbitrary objects inside extras are outside the model"
+    "counted); inf values, string arrays and arbitrary objects inside extras are outside the model; pairs whose extras differ only in "
+    "the concrete (sub)type of a value (np.float64, bool, OrderedDict, subclasses) are judged by the property oracle alone "
+    "(nothing raises, ==/!=/equals/aequals/diff/assert_* answer the same from both sides, diff names at most that member)"
 )
 EXHAUSTIVE = False
 
@@ -72,29 +79,100 @@ def _frac(v):
 # ----------------------------------------------------------------------------- building the real objects
 
 
+class _FloatSub(float):
+    """a float subclass (same value, same behaviour)"""
+
+
+class _IntSub(int):
+    """an int subclass"""
+
+
+class _StrSub(str):
+    """a str subclass"""
+
+
+class _DictSub(dict):
+    """a dict subclass"""
+
+
+class _ArrSub(np.ndarray):
+    """an ndarray subclass (a view of the same data)"""
+
+
+# concrete Python type of a value inside `extra` (spec key "as"; absent = the plain type).  Every entry of one row holds the
+# SAME value; the first is the plain type, the others are subclasses of it / the NumPy scalar of the same value.
+AS_TYPES = {
+    "float": ["float", "np.float64", "float_sub"],
+    "int": ["int", "int_sub", "np.int64"],
+    "int01": ["int", "bool", "np.bool_", "int_sub", "np.int64"],  # the value is 0 or 1
+    "str": ["str", "np.str_", "str_sub"],
+    "dict": ["dict", "OrderedDict", "dict_sub", "defaultdict"],
+    "farr": ["ndarray", "ndarray_sub"],
+    "iarr": ["ndarray", "ndarray_sub"],
+    "barr": ["ndarray", "ndarray_sub"],
+}
+# (base, derived): `derived` is a subclass of `base`
+SUBCLASS_OF = {("float", "np.float64"), ("float", "float_sub"), ("int", "int_sub"), ("int", "bool"), ("str", "np.str_"),
+               ("str", "str_sub"), ("dict", "OrderedDict"), ("dict", "dict_sub"), ("dict", "defaultdict"),
+               ("ndarray", "ndarray_sub")}
+
+
+def _as_type(v, as_):
+    import collections
+
+    if as_ in (None, "float", "int", "str", "dict", "ndarray"):
+        return v
+    if as_ == "np.float64":
+        return np.float64(v)
+    if as_ == "float_sub":
+        return _FloatSub(v)
+    if as_ == "int_sub":
+        return _IntSub(v)
+    if as_ == "np.int64":
+        return np.int64(v)
+    if as_ == "bool":
+        return bool(v)
+    if as_ == "np.bool_":
+        return np.bool_(v)
+    if as_ == "np.str_":
+        return np.str_(v)
+    if as_ == "str_sub":
+        return _StrSub(v)
+    if as_ == "OrderedDict":
+        return collections.OrderedDict(v)
+    if as_ == "dict_sub":
+        return _DictSub(v)
+    if as_ == "defaultdict":
+        return collections.defaultdict(int, v)
+    if as_ == "ndarray_sub":
+        return v.view(_ArrSub)
+    raise KeyError(as_)
+
+
 def _mk_extra(spec):
     out = {}
     for k, e in spec.items():
         t = e["t"]
         if t == "farr":
-            out[k] = np.array([_num(v) for v in e["data"]], dtype=float).reshape(e["shape"])
+            v = np.array([_num(v) for v in e["data"]], dtype=float).reshape(e["shape"])
         elif t == "iarr":
-            out[k] = np.array(e["data"], dtype=int).reshape(e["shape"])
+            v = np.array(e["data"], dtype=int).reshape(e["shape"])
         elif t == "barr":
-            out[k] = np.array(e["data"], dtype=bool).reshape(e["shape"])
+            v = np.array(e["data"], dtype=bool).reshape(e["shape"])
         elif t == "oarr":
             a = np.empty(len(e["data"]), dtype=object)
             for i, v in enumerate(e["data"]):
                 a[i] = _num(v)
-            out[k] = a.reshape(e["shape"])
+            v = a.reshape(e["shape"])
         elif t in ("int", "str"):
-            out[k] = e["v"]
+            v = e["v"]
         elif t == "float":
-            out[k] = float(_num(e["v"]))
+            v = float(_num(e["v"]))
         elif t == "dict":
-            out[k] = _mk_extra(e["v"])
+            v = _mk_extra(e["v"])
         else:
             raise KeyError(t)
+        out[k] = _as_type(v, e.get("as"))
     return out
 
 
@@ -136,7 +214,7 @@ def build(spec, left=None):
         if how == "copy":
             return _copy.copy(left)
         if how == "dm.copy":
-            return left.copy()
+            return left.copy(dtypes=list(spec["dtypes"])) if spec.get("dtypes") else left.copy()
         if how == "rebuild":
             return RanksComparator(left.ranks)
         raise KeyError(how)
@@ -150,8 +228,9 @@ def build(spec, left=None):
             matrix = np.zeros((len(rows), len(spec["criteria"])))
         else:
             matrix = rows
+        kw = {"dtypes": list(spec["dtypes"])} if spec.get("dtypes") else {}
         return skc.mkdm(matrix, list(spec["objectives"]), weights=[_num(w) for w in spec["weights"]],
-                        alternatives=list(spec["alternatives"]), criteria=list(spec["criteria"]))
+                        alternatives=list(spec["alternatives"]), criteria=list(spec["criteria"]), **kw)
     if o == "result":
         return _mk_result(spec)
     if o == "rcmp":
@@ -199,13 +278,16 @@ def _narr(a):
     return {"shape": [int(s) for s in a.shape], "cells": [_cell(v) for v in a.reshape(-1).tolist()], "obj": bool(a.dtype == object)}
 
 
-def _extra_model(mapping):
+def _extra_model(mapping, lenient=False):
+    """`lenient` (oracle-only cases): a value whose exact type the model has no notion of is recorded as opaque"""
     out = []
     for k in mapping:
         if not isinstance(k, str):
             raise TypeError(f"extra key {k!r} is not a str")
         v = mapping[k]
-        if isinstance(v, np.ndarray):
+        if lenient and type(v) not in (np.ndarray, int, str, float, dict):
+            out.append([k, {"t": "opaque", "py": type(v).__name__}])
+        elif isinstance(v, np.ndarray):
             if v.dtype.kind in "fc":
                 out.append([k, {"t": "farr", "a": _narr(v)}])
             elif v.dtype.kind in "iub" or v.dtype == object:
@@ -219,21 +301,21 @@ def _extra_model(mapping):
         elif type(v) is float:
             out.append([k, {"t": "flt", "v": _cell(v)}])
         elif type(v) is dict:
-            out.append([k, {"t": "dict", "v": _extra_model(v)}])
+            out.append([k, {"t": "dict", "v": _extra_model(v, lenient)}])
         else:
             raise TypeError(f"extra value of type {type(v).__name__} is outside the model")
     return out
 
 
-def _result_model(r, oid):
+def _result_model(r, oid, lenient=False):
     from skcriteria.agg import RankResult
 
     return {"kind": "result", "type": "rank" if type(r) is RankResult else "kernel", "oid": oid(r), "method": r.method,
             "alternatives": [_label(a) for a in r.alternatives.tolist()], "values": _narr(r.values),
-            "extra": _extra_model(r.extra_)}
+            "extra": _extra_model(r.extra_, lenient)}
 
 
-def to_model(x, oid):
+def to_model(x, oid, lenient=False):
     from skcriteria.agg import KernelResult, RankResult
     from skcriteria.cmp import RanksComparator
     from skcriteria.core import DecisionMatrix
@@ -248,9 +330,9 @@ def to_model(x, oid):
                 "weights": [_cell(v) for v in x.weights.tolist()], "matrix": m,
                 "dtypes": [str(d) for d in x.dtypes.tolist()]}
     if type(x) in (RankResult, KernelResult):
-        return _result_model(x, oid)
+        return _result_model(x, oid, lenient)
     if type(x) is RanksComparator:
-        return {"kind": "rcmp", "oid": oid(x), "ranks": [[n, _result_model(r, oid)] for n, r in x.ranks]}
+        return {"kind": "rcmp", "oid": oid(x), "ranks": [[n, _result_model(r, oid, lenient)] for n, r in x.ranks]}
     return {"kind": "other", "oid": oid(x), "type": type(x).__name__}
 
 
@@ -303,7 +385,8 @@ def observe(case):
     x = build(case["left"])
     y = build(case["right"], x)
     oid = _Oids()
-    obs = {"left": to_model(x, oid), "right": to_model(y, oid)}
+    lenient = bool(case.get("oracle_only"))
+    obs = {"left": to_model(x, oid, lenient), "right": to_model(y, oid, lenient)}
     obs["eq"] = _call(lambda: x == y)
     obs["ne"] = _call(lambda: x != y)
     obs["equals"] = _call(lambda: x.equals(y))
@@ -316,6 +399,15 @@ def observe(case):
         kw = _kw(t)
         obs["tols"].append({"aequals": _call(lambda: x.aequals(y, **kw)), "diff": _diff(x, y, kw),
                             "assert": _assert(x, y, kw)})
+    if case.get("both_ways") and rev_ok and hasattr(y, "diff"):
+        # the same questions asked from the other side (y is one of the library's objects)
+        obs["equals_rev"] = _call(lambda: y.equals(x))
+        obs["default_rev"] = {"aequals": _call(lambda: y.aequals(x)), "diff": _diff(y, x, {}), "assert": _assert(y, x, {})}
+        obs["tols_rev"] = []
+        for t in case["tols"]:
+            kw = _kw(t)
+            obs["tols_rev"].append({"aequals": _call(lambda: y.aequals(x, **kw)), "diff": _diff(y, x, kw),
+                                    "assert": _assert(y, x, kw)})
     return obs
 
 
@@ -342,6 +434,8 @@ def _rank_pairs(obs):
 def requests(case, obs):
     l, r = obs["left"], obs["right"]
     reqs = []
+    if case.get("oracle_only"):
+        return reqs  # the model's extras have no notion of these value types: property oracle only
     for i, t in enumerate([_default_tol(l)] + list(case["tols"])):
         reqs.append(_req("diff", l, r, t))
         # x.aequals(y) has its own defaults: equal_nan=True whatever the class's diff() default is
@@ -557,6 +651,65 @@ def judge(case, obs, replies):
                 prop(f"only `{member}` was changed beyond the default tolerance, assert_* did not raise AssertionError",
                      "AssertionError", obs["default"]["assert"])
 
+    # ---------------- the same pair asked from the other side (cases observed both ways)
+    if "tols_rev" in obs:
+        per_rev = [obs["default_rev"]] + obs["tols_rev"]
+        bad = False
+        if _is_err(obs["equals_rev"]):
+            prop(f"`y.equals(x)` raised {obs['equals_rev']['err']}: {obs['equals_rev'].get('msg')}", "a bool", obs["equals_rev"]["err"])
+            bad = True
+        for nm, o in zip(names, per_rev):
+            for key in ("aequals", "diff", "assert"):
+                if _is_err(o[key]):
+                    prop(f"`{key}` of (y, x) ({nm}) raised {o[key]['err']}: {o[key].get('msg')}", "no exception", o[key]["err"])
+                    bad = True
+        if not bad:
+            eq_rev = obs["eq_rev"]
+            if obs["equals_rev"] != eq_rev:
+                prop("`y.equals(x)` differs from `y == x`", eq_rev, obs["equals_rev"])
+            if obs["equals_rev"] != equals:
+                prop("`equals` is not symmetric", {"x.equals(y)": equals}, {"y.equals(x)": obs["equals_rev"]})
+            if eq_rev:
+                for nm, o in zip(names, per_rev):
+                    if o["aequals"] is not True:
+                        prop(f"`y == x` but not `y.aequals(x)` ({nm})", True, o["aequals"])
+            for nm, o in list(zip(names, per_rev))[1:]:
+                d = o["diff"]
+                if o["aequals"] != (not (d["different_types"] or d["members"])):
+                    prop(f"aequals disagrees with diff on (y, x) ({nm})", not (d["different_types"] or d["members"]), o["aequals"])
+            exact_change = rel == "one_member" and (case.get("change") or {}).get("numeric") is None
+            if exact_change:
+                # a member compared exactly was changed: the pair is unequal from either side, and diff names that member
+                member = case["member"]
+                if eq_rev is not False:
+                    prop(f"only `{member}` was changed, but `y == x`", False, eq_rev)
+                for nm, t, o in zip(names, tols, per_rev):
+                    if member == "dtypes" and not t[3]:
+                        continue
+                    if o["aequals"] is not False or o["diff"]["members"] != [member] or o["diff"]["different_types"]:
+                        prop(f"only `{member}` was changed, diff(y, x) names {o['diff']['members']} / aequals={o['aequals']} ({nm})",
+                             [member], o["diff"])
+            if rel == "subtype" or exact_change:
+                # the two objects hold the same values in every member: whatever the answer to "is a value of another
+                # (sub)type a change of that member", it is the same answer from both sides, and no other member is named
+                member = case["member"]
+                for nm, o, orv in zip(names, per, per_rev):
+                    if o["aequals"] != orv["aequals"]:
+                        prop(f"aequals is not symmetric on a pair holding the same values ({nm})",
+                             {"x.aequals(y)": o["aequals"]}, {"y.aequals(x)": orv["aequals"]})
+                    if (o["diff"]["members"], o["diff"]["different_types"]) != (orv["diff"]["members"], orv["diff"]["different_types"]):
+                        prop(f"diff is not symmetric on a pair holding the same values ({nm})", {"diff(x, y)": o["diff"]},
+                             {"diff(y, x)": orv["diff"]})
+                    for dd in (o["diff"], orv["diff"]):
+                        if dd["different_types"] or not set(dd["members"]) <= {member}:
+                            prop(f"only a value of `{member}` differs (in type), diff names {dd['members']} ({nm})", [member], dd)
+                    if o["assert"] != orv["assert"]:
+                        prop(f"assert_* is not symmetric on a pair holding the same values ({nm})", o["assert"], orv["assert"])
+
+    if case.get("oracle_only"):
+        obs["_skipped_near"] = 0
+        return out  # no correspondence: the model has no notion of these value types
+
     # ---------------- correspondence: model vs implementation
     k = 0
     skipped = 0
@@ -624,6 +777,10 @@ def tags(case, obs):
         ch = case.get("change") or {}
         if ch.get("numeric") is not None:
             t.append("numeric-change:" + ch.get("design", "?"))
+    if case.get("width"):
+        t.append("dtype-width:" + case["width"])
+    if case.get("sub"):
+        t.append("extra-value-type:" + case["sub"])
     if case["relation"] == "types":
         t.append("other:" + obs["right"]["kind"] + ":" + str(obs["right"].get("type")))
     if case["relation"] == "shape":
@@ -887,6 +1044,113 @@ def _change_dm(rng, spec, member):
     return right, ch
 
 
+INT_WIDTHS = ["int64", "int32", "int16", "int8"]
+UINT_WIDTHS = ["uint64", "uint32", "uint16", "uint8"]
+FLOAT_WIDTHS = ["float64", "float32"]
+
+
+def _f32(v):
+    """the float32 nearest to v, as a Python float (so that both widths hold the same value)"""
+    import struct
+
+    return struct.unpack("f", struct.pack("f", float(v)))[0]
+
+
+def _width_pair(rng, spec):
+    """(left, right, note): the same decision matrix twice, ONE criterion's dtype differing only in its width (int64 / int32 /
+    int16 / int8, uint*, float64 / float32); other criteria may carry a non-default width on both sides.  The right one is
+    built by mkdm(..., dtypes=) or by left.copy(dtypes=).  None when the matrix has no rows / columns / a boolean column."""
+    m, n = len(spec["matrix"]), len(spec["criteria"])
+    if m == 0 or n == 0 or "bool" in spec["colkinds"]:
+        return None
+    left = _copy.deepcopy(spec)
+    ints = [c for c in range(n) if spec["colkinds"][c] == "int"]
+    j = rng.choice(ints) if ints and rng.random() < 0.75 else rng.randrange(n)
+
+    def widths(c):
+        if spec["colkinds"][c] == "int":
+            if all(spec["matrix"][i][c] >= 0 for i in range(m)) and rng.random() < 0.25:
+                return UINT_WIDTHS
+            return INT_WIDTHS
+        return FLOAT_WIDTHS
+
+    dts = ["int64" if k == "int" else "float64" for k in spec["colkinds"]]
+    for c in range(n):  # the same non-default width on both sides
+        if c != j and rng.random() < 0.3:
+            dts[c] = rng.choice(widths(c)[1:])
+    ws = widths(j)
+    a, b = rng.sample(ws, 2)
+    if rng.random() < 0.5 and ws[0] not in (a, b):
+        a = ws[0]  # most often against the default width
+        if rng.random() < 0.5:
+            a, b = b, a
+    ldt, rdt = list(dts), list(dts)
+    ldt[j], rdt[j] = a, b
+    for c in range(n):
+        if "float32" in (ldt[c], rdt[c]):
+            for i in range(m):
+                left["matrix"][i][c] = _f32(left["matrix"][i][c])
+    default = ["int64" if k == "int" else "float64" for k in spec["colkinds"]]
+    if ldt != default or rng.random() < 0.5:
+        left["dtypes"] = ldt
+    if rng.random() < 0.5:
+        right = {"o": "copy", "how": "dm.copy", "dtypes": rdt}
+    else:
+        right = _copy.deepcopy(left)
+        right.pop("dtypes", None)
+        if rdt != default or rng.random() < 0.5:
+            right["dtypes"] = rdt
+    return left, right, "%s|%s" % (a, b)
+
+
+def _subtype_pair(rng, spec):
+    """(left, right, note): the same result twice, ONE value of extra (top level or inside a nested dictionary) holding the
+    same value as another concrete type on one side - most often a subclass of the other side's type (float / np.float64,
+    int / bool, dict / OrderedDict, str / a str subclass, ndarray / an ndarray subclass), either side being the subclass"""
+    left = _copy.deepcopy(spec)
+    n = len(spec["alternatives"])
+    target = left["extra"]
+    path = []
+    if rng.random() < 0.3:
+        left["extra"]["sub"] = {"t": "dict", "v": gen_extra(rng, n, depth=1)}
+        target = left["extra"]["sub"]["v"]
+        path = ["sub"]
+    kind = rng.choice(["float", "float", "int", "int01", "int01", "str", "dict", "dict", "farr", "iarr", "barr"])
+    family = rng.choice(["dyadic", "float"])
+    if kind == "float":
+        e = {"t": "float", "v": rng.choice([_fval(rng, family), float(rng.randint(0, 3))])}
+    elif kind == "int":
+        e = {"t": "int", "v": rng.randint(-3, 9)}
+    elif kind == "int01":
+        e = {"t": "int", "v": rng.choice([0, 1])}
+    elif kind == "str":
+        e = {"t": "str", "v": rng.choice(["a", "b", "euclidean", "", "1"])}
+    elif kind == "dict":
+        e = {"t": "dict", "v": gen_extra(rng, n, depth=1) if rng.random() < 0.8 else {}}
+    elif kind == "farr":
+        e = {"t": "farr", "shape": [n], "data": [_fval(rng, family) for _ in range(n)]}
+    elif kind == "iarr":
+        e = {"t": "iarr", "shape": [n], "data": [rng.randint(0, 9) for _ in range(n)]}
+    else:
+        e = {"t": "barr", "shape": [n], "data": [rng.random() < 0.5 for _ in range(n)]}
+    key = rng.choice(["tv", "tv", "score", "q", "name", "k"])
+    types = AS_TYPES[kind]
+    if rng.random() < 0.75:
+        a = types[0]
+        b = rng.choice([t for t in types if (a, t) in SUBCLASS_OF])
+    else:
+        a, b = rng.sample(types, 2)
+    if rng.random() < 0.5:
+        a, b = b, a
+    target[key] = dict(e, **{"as": a})
+    right = _copy.deepcopy(left)
+    t = right["extra"]
+    for p in path:
+        t = t[p]["v"]
+    t[key]["as"] = b
+    return left, right, "%s:%s|%s" % (kind, a, b)
+
+
 def _change_extra(rng, ex, n):
     """exactly the extras changed; returns (new extra, change) or None"""
     new = _copy.deepcopy(ex)
@@ -1097,6 +1361,39 @@ def gen(ctx):
                 if right["ranks"] == left["ranks"]:
                     continue
             cases.append(_mk("one_member", left, right, _tols(ctx, rng, ch.get("design_tol")), member="ranks", change=ch))
+
+    # 2b. decision matrices that differ ONLY in the width of one criterion's dtype (member `dtypes`), asked from both sides
+    for _ in range(ctx.n(30, 500)):
+        base = gen_dm(rng, m=rng.choice([1, 2, 3, 4]), n=rng.choice([1, 2, 3, 4]), allow_special=False)
+        if base["criteria"] and rng.random() < 0.6:  # at least one integer criterion
+            c = rng.randrange(len(base["criteria"]))
+            lo = rng.choice([-5, 0])
+            base["colkinds"][c] = "int"
+            for row in base["matrix"]:
+                row[c] = rng.randint(lo, 40)
+        r = _width_pair(rng, base)
+        if r is None:
+            continue
+        left, right, note = r
+        cases.append(_mk("one_member", left, right, _tols(ctx, rng, None, True if rng.random() < 0.7 else None),
+                         member="dtypes", change={}, both_ways=True, width=note))
+
+    # 2c. results / comparators identical except for the concrete TYPE of one value of extra (same value; one side's type a
+    #     subclass of the other's), asked from both sides; the model's extras have no such types: property oracle only
+    for _ in range(ctx.n(45, 700)):
+        if rng.random() < 0.65:
+            r = _subtype_pair(rng, gen_result(rng, n=rng.choice([1, 2, 3, 4, 5])))
+            left, right, note = r
+            member = "extra_"
+        else:
+            left = gen_rcmp(rng, n=rng.choice([1, 2, 3, 4]))
+            i = rng.randrange(len(left["ranks"]))
+            li, ri, note = _subtype_pair(rng, left["ranks"][i][1])
+            left["ranks"][i][1] = li
+            right = _copy.deepcopy(left)
+            right["ranks"][i][1] = ri
+            member = "ranks"
+        cases.append(_mk("subtype", left, right, _tols(ctx, rng), member=member, oracle_only=True, both_ways=True, sub=note))
 
     # 3. different shapes / lengths, including 1 and 0
     for _ in range(ctx.n(60, 1200)):
